@@ -284,7 +284,7 @@ def run_shard(spec, workdir):
         if len(sides) == 2:
             res["counters"]["recipes_with_both_sides"] += 1
         shutil.rmtree(wd, ignore_errors=True)
-        if k < 1 and spec.get("shard", 0) == 0:
+        if len(res["samples"]) < 1 and spec.get("shard", 0) == 0:
             res["samples"].append({"recipe": recipe, "optimize": optimize, "reserved": reserved, "boundary_P": M})
     res["counters"]["fuse_contract_evaluations"] = _contract["fuse"]
     res["counters"]["fuse_multiple_contract_evaluations"] = _contract["fuse_multiple"]
